@@ -244,10 +244,12 @@ impl<'a> TreeGen<'a> {
         };
         let a = part(self.rng);
         let b = part(self.rng);
-        let c = match self.rng.below(6) {
-            0 => -1,
-            1 => 2,
-            2 => -2,
+        let c = match self.rng.below(24) {
+            0 | 1 | 2 | 3 => -1,
+            4 | 5 | 6 | 7 => 2,
+            8 | 9 | 10 | 11 => -2,
+            12 => 0,
+            13 => 3,
             _ => 1,
         };
         Kind::Slice(a, b, c)
